@@ -46,3 +46,15 @@ Fixpoint all_fresh (s : list nat) (items : list sitem) : bool :=
   | [] => true
   | it :: r => fresh_wrt s it && all_fresh (parts it ++ s) r
   end.
+
+(* the same walk, returning which items are kept (so that a caller can apply the decision to its own, richer items) *)
+Fixpoint dedup_flags (seen : list nat) (items : list sitem) : list bool :=
+  match items with
+  | [] => []
+  | ICompound ids :: r => let '(seen', keep) := insert_until_new seen ids in keep :: dedup_flags seen' r
+  | IAlias a :: r => if dmem a seen then false :: dedup_flags seen r else true :: dedup_flags (a :: seen) r
+  | IOther :: r => true :: dedup_flags seen r
+  end.
+
+Fixpoint select_flags {A} (l : list A) (fl : list bool) : list A :=
+  match l, fl with x :: l', b :: f' => if b then x :: select_flags l' f' else select_flags l' f' | _, _ => [] end.
